@@ -85,9 +85,15 @@ class Layout:
             parts = []
             for lb, ub in d['dims']:
                 ubs = f'{ub} + zdynz%' if d['dyn'] else str(ub)
+                lbs = str(lb)
+                if not d['dyn'] and self.r.random() < 0.25:
+                    # fractional constant bound; the declared bound is the rounded value (halves go to the even neighbour,
+                    # so a tie is only written next to an even bound, where it rounds back to that bound)
+                    ubs = repr(ub + self.r.choice([0.4, -0.3] + ([0.5, -0.5] if ub % 2 == 0 else [])))
                 if not d['dyn'] and self.r.random() < 0.2:
-                    # fractional constant bound; the declared bound is the rounded value
-                    ubs = repr(ub + self.r.choice([0.4, -0.3]))
+                    lbs = repr(lb + self.r.choice([0.4, -0.3] + ([0.5, -0.5] if lb % 2 == 0 else [])))
+                    parts.append(f'{lbs} TO {ubs}')
+                    continue
                 parts.append(f'{lb} TO {ubs}' if (lb != 0 or self.r.random() < 0.5) else ubs)
             s += '(' + ', '.join(parts) + ')'
         t = d['type']
@@ -229,7 +235,7 @@ def build(seed, kind, scope):
             else:
                 z = {'%': '0', '&': '0&', '!': '0!', '#': '0#'}[t]
                 o1 = {'%': '1', '&': '1&', '!': '1!', '#': '1#'}[t]
-                form = r.choice([f'({l})', f'{l} + {z}', f'{l} * {o1}', f'{z} + {l}', f'{l} - {z}'])
+                form = r.choice([f'({l})', f'{l} + {z}', f'{l} * {o1}', f'{z} + {l}', f'{l} - {z}', f'+{l}', f'-(-{l})', f'+({l})'])
             ops.append(f'{sub} {form}, {lit(t, v)}')
         else:
             ops.append(f'{sub} {l}, {lit(t, v)}')
